@@ -13,7 +13,9 @@ RULE = ("seeded streams: constructor with normals unit / off by multiples of the
         "direction_decimals; from_point_and_normal (grid normals, zero); from_points (grid triples, collinear, repeated); "
         "from_points_and_vector (incl. parallel); fit_from_points (generic, nearly planar, exactly planar, collinear, "
         "lattice clouds of 3..14 points); tilted (axis and rational planes, degenerate tilt); equation functions on "
-        "stacks of 1..5 triangles and on each triangle alone; coordinate planes; power-of-two scales; "
+        "stacks of 1..5 triangles and on each triangle alone; coordinate planes; power-of-two scales 2^-30..2^30; "
+        "small triangles (1e-9..1) translated to coordinates up to 1e8; integer-dtype arguments; every argument is a "
+        "row view of a caller buffer that is overwritten after construction (aliasing probe); "
         "non-trivial = a plane was returned; distinct by hash of inputs")
 TRUSTED = ["Coq 8.16.1 kernel, vm_compute for the correspondence evaluation",
            "axioms (Print Assumptions): ClassicalDedekindReals.sig_forall_dec, sig_not_dec, "
@@ -28,7 +30,8 @@ TRUSTED = ["Coq 8.16.1 kernel, vm_compute for the correspondence evaluation",
 CASE_IMPORTS = [("PW.model", "M_plane"), ("PW.model", "M_plane_ctor")]
 ASSUMPTIONS = ["theorems are about exact real arithmetic",
                "fit_from_points is modelled with fixes/C13-fit-real-normal.diff applied (np.linalg.eigh)",
-               "fit optimality is proved under the eigen-solver contract, not for LAPACK itself"]
+               "fit optimality (C13_fit_is_least_squares_partial) is proved under the eigen-solver contract, not for LAPACK itself",
+               "C13_tilted_contains_both uses Reals' cos / sin / acos for math.cos / math.sin / np.arccos"]
 IMPORTS = [("PW.model", "M_plane"), ("PW.model", "M_plane_ctor"), ("PW.proofs", "P_vec")]
 
 ATOL6 = 0.1 ** 6
@@ -92,7 +95,53 @@ def _unit(rng):
 
 
 def _scale(rng, tier):
-    return 2.0 ** rng.randint(-10, 10) if tier != "thorough" else 2.0 ** rng.randint(-30, 30)
+    if tier == "thorough" or rng.random() < 0.15:
+        return 2.0 ** rng.randint(-30, 30)
+    return 2.0 ** rng.randint(-10, 10)
+
+
+def _far_triangle(rng):
+    """a well-conditioned triangle of size 1e-9..1 translated to coordinates of magnitude 0..1e8 (coordinates are
+    whatever binary64 makes of offset + small; exactness is not needed, the model sees the same floats)"""
+    for _ in range(50):
+        size = 10.0 ** rng.uniform(-9, 0)
+        off = [rng.choice([0.0, 1.0, 1e3, 1e6, 1e8]) * rng.choice([1, -1]) * rng.uniform(0.5, 1.0) for _ in range(3)]
+        pts = [[o + size * x for o, x in zip(off, grid_vec(rng, -4, 4, 4))] for _ in range(3)]
+        p1, p2, p3 = [_F(p) for p in pts]
+        e1, e2 = _sub(p2, p1), _sub(p3, p1)
+        cr = _cross(e1, e2)
+        if _dot(cr, cr) * 100 >= _dot(e1, e1) * _dot(e2, e2) > 0:
+            return pts
+    return [[0.0, 0.0, 0.0], [1.0, 0.0, 0.0], [0.0, 1.0, 0.0]]
+
+
+def _int_vec(rng, lo=-4, hi=4):
+    return [float(rng.randint(lo, hi)) for _ in range(3)]
+
+
+def _structured_cases(rng, tier):
+    """a fixed block present in every tier: small triangles far from the origin, integer-dtype arguments"""
+    cases = []
+    for _ in range(24 if tier == "quick" else 120):
+        t = _far_triangle(rng)
+        cases.append({"kind": "from_points_far", "p": t})
+        cases.append({"kind": "equations_far", "tris": [t, _far_triangle(rng)]})
+        v = grid_vec(rng, -3, 3, 2)
+        e = _sub(_F(t[1]), _F(t[0]))
+        cr = _cross(e, _F(v))
+        if _dot(cr, cr) * 100 >= _dot(e, e) * _dot(_F(v), _F(v)) > 0:
+            cases.append({"kind": "fpv_far", "decimals": None, "p1": t[0], "p2": t[1], "vector": v})
+    for _ in range(6 if tier == "quick" else 30):
+        ax = rng.randrange(3)
+        n = [0.0, 0.0, 0.0]
+        n[ax] = rng.choice([1.0, -1.0])
+        cases.append({"kind": "ctor", "decimals": None, "ref": _int_vec(rng), "normal": n, "int": True})
+        cases.append({"kind": "fpn", "decimals": None, "ref": _int_vec(rng), "normal": _int_vec(rng), "int": True})
+        cases.append({"kind": "from_points", "p": [_int_vec(rng), _int_vec(rng), _int_vec(rng)], "int": True})
+        cases.append({"kind": "fpv", "decimals": None, "p1": _int_vec(rng), "p2": _int_vec(rng), "vector": _int_vec(rng, -2, 2), "int": True})
+        cases.append({"kind": "equations", "tris": [[_int_vec(rng), _int_vec(rng), _int_vec(rng)] for _ in range(rng.randint(1, 3))], "int": True})
+        cases.append({"kind": "fit_lattice", "points": [_int_vec(rng, -3, 3) for _ in range(rng.randint(4, 9))], "int": True})
+    return cases
 
 
 def _sv(v, s):
@@ -113,7 +162,7 @@ def _tilt_cs(pl, newp, cop):
 
 
 def gen_cases(rng, n, tier):
-    cases = [{"kind": "coord"}]
+    cases = [{"kind": "coord"}] + _structured_cases(rng, tier)
     full_budget = 3 if tier == "quick" else 12
     for i in range(n):
         u = rng.random()
@@ -214,7 +263,48 @@ def _obs_plane(pl):
     return {"ref": np.asarray(pl.reference_point).real.tolist(), "normal": nrm.real.tolist(),
             "imag": float(np.abs(nrm.imag).max()) if np.iscomplexobj(nrm) else 0.0,
             "dtype": str(nrm.dtype), "ref_dtype": str(np.asarray(pl.reference_point).dtype),
+            "equation": np.asarray(pl.equation).real.tolist(),
             "readonly": (not pl.normal.flags.writeable) and (not pl.reference_point.flags.writeable)}
+
+
+class _Args:
+    """Arguments handed to the constructors as row views of larger caller-owned buffers, so that the harness can go on
+    using (overwriting) those buffers afterwards, the way a caller with a scratch array would."""
+
+    def __init__(self, as_int=False):
+        self.bufs = []
+        self.as_int = as_int
+
+    def row(self, values):
+        a = np.array(values, dtype=np.int64 if self.as_int else np.float64)
+        buf = np.zeros((3,) + a.shape, dtype=a.dtype)
+        buf[1] = a
+        self.bufs.append(buf)
+        return buf[1]
+
+    def scribble(self):
+        """overwrite every buffer in place; a frozen buffer (ValueError) cannot alias a changed plane"""
+        for buf in self.bufs:
+            try:
+                buf *= 3
+                buf += 7
+            except ValueError:
+                pass
+
+
+def _probe(pl, args):
+    """Observe the plane, let the caller overwrite its own arrays, observe again (what is reported is the SECOND
+    observation; `stable` says whether the two agree bit for bit)."""
+    first = _obs_plane(pl)
+    args.scribble()
+    second = _obs_plane(pl)
+    second["stable"] = (first["ref"] == second["ref"] and first["normal"] == second["normal"]
+                        and first["equation"] == second["equation"]) or (first != first)
+    if not second["stable"]:
+        # NaN never equals itself: compare through repr
+        second["stable"] = repr(first["ref"] + first["normal"] + first["equation"]) == repr(second["ref"] + second["normal"] + second["equation"])
+    second["first"] = {"ref": first["ref"], "normal": first["normal"]}
+    return second
 
 
 def run_impl(c):
@@ -224,49 +314,53 @@ def run_impl(c):
 
     def go():
         k = c["kind"]
+        A = _Args(as_int=bool(c.get("int")))
         with np.errstate(all="ignore"):
             if k == "coord":
                 return {"xy": _obs_plane(Plane.xy), "xz": _obs_plane(Plane.xz), "yz": _obs_plane(Plane.yz)}
             if k == "ctor":
-                ref, nrm = np.array(c["ref"]), np.array(c["normal"])
+                ref, nrm = A.row(c["ref"]), A.row(c["normal"])
                 pl = Plane(ref, nrm) if c["decimals"] is None else Plane(ref, nrm, direction_decimals=c["decimals"])
-                o = _obs_plane(pl)
-                ref[0] += 1.0  # defensive copy: mutating the argument afterwards must not change the plane
-                o["copied"] = bool(pl.reference_point[0] == c["ref"][0])
-                return o
+                return _probe(pl, A)
             if k == "fpn":
                 kw = {} if c["decimals"] is None else {"direction_decimals": c["decimals"]}
-                return _obs_plane(Plane.from_point_and_normal(np.array(c["ref"]), np.array(c["normal"]), **kw))
-            if k == "from_points":
-                p = [np.array(x) for x in c["p"]]
-                return _obs_plane(Plane.from_points(*p))
-            if k == "fpv":
+                return _probe(Plane.from_point_and_normal(A.row(c["ref"]), A.row(c["normal"]), **kw), A)
+            if k.startswith("from_points"):
+                p = [A.row(x) for x in c["p"]]
+                return _probe(Plane.from_points(*p), A)
+            if k.startswith("fpv"):
                 kw = {} if c["decimals"] is None else {"direction_decimals": c["decimals"]}
-                return _obs_plane(Plane.from_points_and_vector(np.array(c["p1"]), np.array(c["p2"]), np.array(c["vector"]), **kw))
+                return _probe(Plane.from_points_and_vector(A.row(c["p1"]), A.row(c["p2"]), A.row(c["vector"]), **kw), A)
             if k.startswith("fit_"):
-                pts = np.array(c["points"])
-                return _obs_plane(Plane.fit_from_points(pts))
+                return _probe(Plane.fit_from_points(A.row(c["points"])), A)
             if k.startswith("tilted"):
-                pl = Plane(np.array(c["ref"]), np.array(c["normal"]))
-                return _obs_plane(pl.tilted(np.array(c["new_point"]), np.array(c["coplanar"])))
-            ts = np.array(c["tris"])
+                pl = Plane(A.row(c["ref"]), A.row(c["normal"]))
+                return _probe(pl.tilted(A.row(c["new_point"]), A.row(c["coplanar"])), A)
+            ts = A.row(c["tris"])
+            keep = ts.copy()
             e_stack = plane_equation_from_points(ts)
             no_n, no_o = normal_and_offset_from_plane_equations(e_stack)
             one_n, one_o = normal_and_offset_from_plane_equations(e_stack[0])
-            return {"n_stack": plane_normal_from_points(ts).tolist(),
-                    "n_single": [plane_normal_from_points(t).tolist() for t in ts],
-                    "raw_stack": plane_normal_from_points(ts, normalize=False).tolist(),
-                    "e_stack": e_stack.tolist(), "e_single": [plane_equation_from_points(t).tolist() for t in ts],
-                    "no_normals": no_n.tolist(), "no_offsets": no_o.tolist(),
-                    "no_exact": bool(np.array_equal(no_n, e_stack[:, :3], equal_nan=True) and np.array_equal(no_o, e_stack[:, 3], equal_nan=True)
-                                     and np.array_equal(one_n, e_stack[0, :3], equal_nan=True)
-                                     and (one_o == e_stack[0, 3] or (one_o != one_o)))}
+            out = {"n_stack": plane_normal_from_points(ts).tolist(),
+                   "n_single": [plane_normal_from_points(t).tolist() for t in ts],
+                   "raw_stack": np.asarray(plane_normal_from_points(ts, normalize=False), dtype=np.float64).tolist(),
+                   "e_stack": e_stack.tolist(), "e_single": [plane_equation_from_points(t).tolist() for t in ts],
+                   "no_normals": no_n.tolist(), "no_offsets": no_o.tolist(),
+                   "args_unchanged": bool(np.array_equal(ts, keep)),
+                   "no_exact": bool(np.array_equal(no_n, e_stack[:, :3], equal_nan=True) and np.array_equal(no_o, e_stack[:, 3], equal_nan=True)
+                                    and np.array_equal(one_n, e_stack[0, :3], equal_nan=True)
+                                    and (one_o == e_stack[0, 3] or (one_o != one_o)))}
+            return out
 
     return call_impl(go)
 
 
+def _real(dt):
+    return np.dtype(dt).kind in "fiu"
+
+
 def _oplane(o):
-    return "(OPlane %s %s %s)" % (flv(o["ref"]), flv(o["normal"]), coq_bool(o["dtype"] == "float64"))
+    return "(OPlane %s %s %s)" % (flv(o["ref"]), flv(o["normal"]), coq_bool(_real(o["dtype"])))
 
 
 def _obs(o):
@@ -296,9 +390,9 @@ def coq_case(c, o):
         return "CCtor %s %s %s %s" % (_atol(c["decimals"]), qv(c["ref"]), qv(c["normal"]), _obs(o))
     if k == "fpn":
         return "CFpn %s %s %s %s" % (_atol(c["decimals"]), qv(c["ref"]), qv(c["normal"]), _obs(o))
-    if k == "from_points":
+    if k.startswith("from_points"):
         return "CFromPoints %s %s %s %s" % (qv(c["p"][0]), qv(c["p"][1]), qv(c["p"][2]), _obs(o))
-    if k == "fpv":
+    if k.startswith("fpv"):
         return "CFpv %s %s %s %s %s" % (_atol(c["decimals"]), qv(c["p1"]), qv(c["p2"]), qv(c["vector"]), _obs(o))
     if k.startswith("fit_"):
         w, v = _eig_of(c["points"])
@@ -346,10 +440,13 @@ def _cross(a, b):
 
 def _plane_ok(o, atol=ATOL6):
     """real, finite, unit normal; read-only copies"""
-    if o["dtype"] != "float64" or o["imag"] != 0.0:
-        return "normal is %s, not a real float64 vector" % o["dtype"]
-    if o["ref_dtype"] != "float64":
+    if not _real(o["dtype"]) or o["imag"] != 0.0:
+        return "normal is %s, not a real vector" % o["dtype"]
+    if not _real(o["ref_dtype"]):
         return "reference point dtype is %s" % o["ref_dtype"]
+    if not o.get("stable", True):
+        return ("the plane changed when the caller overwrote the arrays it was built from: normal %r -> %r, "
+                "reference point %r -> %r" % (o["first"]["normal"], o["normal"], o["first"]["ref"], o["ref"]))
     if not all(math.isfinite(x) for x in o["normal"] + o["ref"]):
         return "plane has non-finite coordinates"
     n2 = _dot(_F(o["normal"]), _F(o["normal"]))
@@ -367,6 +464,22 @@ def _contains(o, p, mag, what, rel=Fr(1, 10 ** 8)):
     return None
 
 
+def _direction(nrm, cr, e1, e2, what):
+    """unit normal against the exact cross product, tolerance relative to the TRIANGLE (edge lengths), not to the
+    coordinates: |n - cr/|cr|| <= 1e-9 * (1 + |e1||e2|/|cr|)"""
+    n2 = float(_dot(cr, cr))
+    if n2 <= 0 or not math.isfinite(n2):
+        return None
+    ln = math.sqrt(n2)
+    cond = math.sqrt(float(_dot(e1, e1)) * float(_dot(e2, e2))) / ln
+    tol = 1e-9 * (1 + cond)
+    for a, b in zip(nrm, cr):
+        if abs(float(a) - float(b) / ln) > tol:
+            return "%s %r is not the unit vector along the exact cross product %r" % (
+                what, [float(x) for x in nrm], [float(x) / ln for x in cr])
+    return None
+
+
 def oracle(c, o):
     k = c["kind"]
     if k == "coord":
@@ -378,6 +491,9 @@ def oracle(c, o):
         return None
     if "raise" in o and o["raise"] != "ValueError":
         return "raised %s (%s); only ValueError is allowed" % (o["raise"], o.get("msg"))
+    if "raise" not in o and not o.get("stable", True):
+        return ("the plane changed when the caller overwrote the arrays it was built from: normal %r -> %r, "
+                "reference point %r -> %r" % (o["first"]["normal"], o["normal"], o["first"]["ref"], o["ref"]))
     if k == "ctor":
         atol = 0.1 ** (6 if c["decimals"] is None else c["decimals"])
         nn = math.sqrt(float(_dot(_F(c["normal"]), _F(c["normal"]))))
@@ -388,8 +504,6 @@ def oracle(c, o):
             return "accepted a normal with | |n| - 1 | = %g > 0.1**%r" % (err, c["decimals"])
         if o["ref"] != c["ref"] or o["normal"] != c["normal"]:
             return "constructor changed the reference point or normal"
-        if not o["copied"]:
-            return "constructor did not copy the reference point"
         return _plane_ok(o, atol)
     if k == "fpn":
         v = _F(c["normal"])
@@ -407,7 +521,7 @@ def oracle(c, o):
         if any(abs(x) > Fr(1, 10 ** 9) * vmax for x in _cross(v, nrm)) or _dot(v, nrm) <= 0:
             return "normal is not the normalised input direction"
         return None
-    if k == "from_points":
+    if k.startswith("from_points"):
         p1, p2, p3 = [_F(p) for p in c["p"]]
         cr = _cross(_sub(p2, p1), _sub(p3, p1))
         if all(x == 0 for x in cr):
@@ -420,8 +534,8 @@ def oracle(c, o):
             return bad
         if _dot(cr, _F(o["normal"])) <= 0:
             return "normal is not on the counter-clockwise side of (p1, p2, p3)"
-        return None
-    if k == "fpv":
+        return _direction(_F(o["normal"]), cr, _sub(p2, p1), _sub(p3, p1), "from_points normal")
+    if k.startswith("fpv"):
         p1, p2, v = _F(c["p1"]), _F(c["p2"]), _F(c["vector"])
         cr = _cross(_sub(p2, p1), v)
         if all(x == 0 for x in cr):
@@ -435,7 +549,7 @@ def oracle(c, o):
         vmax = max(abs(x) for x in v)
         if abs(_dot(v, _F(o["normal"]))) > Fr(1, 10 ** 8) * vmax:
             return "plane is not parallel to the vector"
-        return None
+        return _direction(_F(o["normal"]), cr, _sub(p2, p1), v, "from_points_and_vector normal")
     if k.startswith("fit_"):
         pts = [_F(p) for p in c["points"]]
         n = len(pts)
@@ -476,6 +590,8 @@ def oracle(c, o):
     # equation functions
     if "raise" in o:
         return "equation functions raised %s" % o["raise"]
+    if not o["args_unchanged"]:
+        return "equation functions modified their argument"
     if not o["no_exact"]:
         return "normal_and_offset_from_plane_equations does not return the columns of its argument"
     for i, t in enumerate(c["tris"]):
@@ -494,6 +610,13 @@ def oracle(c, o):
         mag = max([1] + [abs(x) for p in (p1, p2, p3) for x in p])
         if abs(_dot(nrm, nrm) - 1) > Fr(1, 10 ** 9) or _dot(cr, nrm) <= 0:
             return "normal %d is not the unit counter-clockwise normal" % i
+        bad = _direction(nrm, cr, _sub(p2, p1), _sub(p3, p1), "plane_normal_from_points row %d" % i)
+        if bad:
+            return bad
+        e12 = math.sqrt(float(_dot(_sub(p2, p1), _sub(p2, p1))) * float(_dot(_sub(p3, p1), _sub(p3, p1))))
+        if any(abs(float(a) - float(b)) > 1e-9 * e12 for a, b in zip(o["raw_stack"][i], cr)):
+            return "unnormalised normal %d is %r, the cross product of the edges is %r" % (
+                i, o["raw_stack"][i], [float(x) for x in cr])
         D = Fr(o["e_stack"][i][3])
         for name, p in (("p1", p1), ("p2", p2), ("p3", p3)):
             if abs(_dot(p, nrm) + D) > Fr(1, 10 ** 8) * mag:
